@@ -105,10 +105,6 @@ Proof.
     destruct pf; [reflexivity|]. cbn [orb].
     apply (first_binding_default sc x Hx) in E. rewrite <- Hd, E. apply ns_eqb_refl.
   - cbn [app resolve wfb map forallb].
-    assert (Hall : forall e, In e ((true, x) :: bind_attrs ((true, x) :: sc) (attrs_of_dict a [])) ->
-                             fst e = true).
-    { intros e [<-|He]; [reflexivity|]. apply (bind_attrs_prefixed _ _ e He). }
-    rewrite (eff_default_prefixed d _ Hall).
     split; [reflexivity|].
     rewrite Hxb. reflexivity.
 Qed.
@@ -122,6 +118,9 @@ Proof.
   - rewrite IH. now rewrite andb_assoc.
 Qed.
 
+Lemma snoc_eq {A} (l : list A) x y : x = y -> l ++ [x] = l ++ [y].
+Proof. intros ->. reflexivity. Qed.
+
 Lemma sub_ele_node_resolve : forall sc d tag a p p',
   scope_default sc = d -> wfb d p = true -> sub_ele_node sc tag a p = Some p' ->
   x_sub_ele tag a (resolve d p) = Some (resolve d p') /\ wfb d p' = true.
@@ -134,18 +133,18 @@ Proof.
   cbn [wfb] in Hw. apply andb_true_iff in Hw. destruct Hw as [Hu Hk].
   cbn [resolve x_sub_ele wfb fst parent_ns].
   rewrite map_app, forallb_snoc. cbn [map]. rewrite Hk, Hu. cbn [andb].
-  set (d' := eff_default d ds) in *.
   destruct pf.
   - destruct u as [x|]; [|discriminate Hu].
     apply andb_true_iff in Hu. destruct Hu as [Hx _].
     apply negb_true_iff in Hx. apply beq_neq in Hx.
-    destruct (mk_elem_resolve_Some (ds ++ sc) d' x tag a Hx Hd') as [Hr Hwc].
-    rewrite Hr, Hwc. split; reflexivity.
-  - destruct (mk_elem_resolve_None (ds ++ sc) d' tag a) as [Hr Hwc].
-    rewrite Hr, Hwc. split; [|reflexivity].
+    destruct (mk_elem_resolve_Some (ds ++ sc) (eff_default d ds) x tag a Hx Hd') as [Hr Hwc].
+    split; [|exact Hwc]. f_equal. f_equal. apply snoc_eq. symmetry. exact Hr.
+  - destruct (mk_elem_resolve_None (ds ++ sc) (eff_default d ds) tag a) as [Hr Hwc].
+    split; [|exact Hwc]. f_equal. f_equal. apply snoc_eq.
+    etransitivity; [|symmetry; exact Hr].
     destruct u as [x|]; [|reflexivity].
     apply andb_true_iff in Hu. destruct Hu as [_ Hu]. cbn [orb] in Hu.
-    apply ns_eqb_eq in Hu. rewrite <- Hu. reflexivity.
+    apply ns_eqb_eq in Hu. f_equal. f_equal. exact Hu.
 Qed.
 
 Lemma sub_ele_ns_node_resolve : forall sc d tag u a p p',
@@ -162,7 +161,7 @@ Proof.
   cbn [resolve x_sub_ele_ns wfb fst].
   rewrite map_app, forallb_snoc. cbn [map]. rewrite Hk, Hu. cbn [andb].
   destruct (mk_elem_resolve_Some (ds ++ sc) (eff_default d ds) u tag a Hne Hd') as [Hr Hwc].
-  rewrite Hr, Hwc. split; reflexivity.
+  split; [|exact Hwc]. f_equal. f_equal. apply snoc_eq. symmetry. exact Hr.
 Qed.
 
 (* ---------- (j) lifting along a path ---------- *)
